@@ -88,6 +88,15 @@ func (m c07mon) Check(s *sim.Sim, st *sim.Step) []*sim.Violation {
 	cin, uidIn := rec.CookiesIn["rm"], rec.SessIn["uid"]
 	puts := rmPuts(rec)
 	rotated := false
+	// a logout that ran to completion leaves no remember cookie in the browser — whatever happened to the
+	// cookie earlier in the same request (a cookie-only browser is first re-authenticated, the cookie
+	// rotated, and then logged out)
+	if to, right := isLogoutReq(s, rec); to && right && s.RememberActive() && rec.Panic == "" && rec.FaultsFired == 0 && flushed(rec) && rec.AppHook == "" {
+		m.stats.Count("logout-with-cookie:" + map[bool]string{true: "cookie-only-browser", false: "session"}[uidIn == "" && cin != ""])
+		if rec.CookiesOut["rm"] != "" {
+			vs = append(vs, vio("C07", "remember-cookie-survives-logout|"+map[bool]string{true: "cookie-only-browser", false: "session"}[uidIn == ""], "after logout the browser still holds a remember cookie (presented %q, session uid at request start %q)", trunc(cin, 16), uidIn))
+		}
+	}
 	if rec.FaultsFired > 0 {
 		m.stats.Count("requests-with-injected-backend-fault")
 	}
@@ -371,7 +380,24 @@ var c07Profile = &sim.Profile{
 		"oauth_cb2":   {"validcode": 90, "badcode": 5, "error": 5},
 		"recover_end": {"current": 80, "garbage": 20},
 	},
-	MinLen: 25, MaxLen: 60, Extra: c07Extra, ExtraProb: 0.08,
+	MinLen: 25, MaxLen: 60, Extra: c07Extra, ExtraProb: 0.08, Templates: c07Templates, TplProb: 0.25,
+}
+
+var c07Templates = []sim.Template{
+	{Name: "logout-is-the-first-request-of-a-cookie-only-browser", F: func(s *sim.Sim) []*sim.Action {
+		// the browser was restarted (session gone, remember cookie kept) and the first thing the user does
+		// is log out: the cookie is rotated by the middleware and deleted by the logout in ONE response
+		if !s.RememberActive() || !s.Cfg.Has("logout") || !s.Cfg.Has("auth") {
+			return nil
+		}
+		v := findAcct(s, func(u *world.User) bool { return u.TOTPSecretKey == "" && u.SMSPhone == "" && u.Confirmed })
+		if v < 0 {
+			return nil
+		}
+		b := s.R.Intn(len(s.Br))
+		return []*sim.Action{act("login", b, v, "ok", "rm", "true"), act("dropsid", b, -9, ""), act("logout", b, -9, ""), act("visit", b, -9, "", "route", "/public"),
+			act("visit", b, -9, "", "route", "/protected/plain")}
+	}},
 }
 
 func init() {
